@@ -7,7 +7,7 @@ from . import c02
 
 PROPERTY = 'C03'
 WANT = ('C03',)
-RULE = c02.RULE + '; timestamps non-decreasing with equal times, sub-0.1ms gaps, second- and hour-long gaps'
+RULE = c02.RULE + '; timestamps non-decreasing with equal times, sub-0.1ms gaps, second- and hour-long gaps; GDB-mode event sequences (the plugin on the simulated gdb, as in C15) judged on the object references of every displayed line'
 ASSUMPTIONS = c02.ASSUMPTIONS + ['lifespan tolerance: one unit of the fourth decimal (binary float rounding)']
 REQUIRED = ['core/wl/message.py:Message.resolve', 'core/wl/object.py:ObjectBase.destroy', 'core/wl/object.py:ObjectBase.lifespan',
             'core/connection_impl.py:ConnectionImpl.create_object']
